@@ -106,10 +106,10 @@ def fn_table():
         ("map", [5, 27], RO),
         ("mapopt", [4, 64], RO),
         ("mapcat", [4, 64], RO),
-        ("fold", [], RO + ["a"]),
+        ("fold", [], RO + ["a", "t", "p"]),
         ("foldbrk", [8], RO),
         ("loopbrk", [8], RO + ["a", "t", "p"]),
-        ("loop", [], RO),
+        ("loop", [], RO + ["a", "t", "p"]),
         ("allof", [8], RO),
         ("containsif", [8], RO),
         ("contains", [3], [k for k in RO if k != "m"]),
@@ -297,6 +297,20 @@ def batches(rng, tier):
         for n in range(0, (4 if thorough else 3) + 1):
             ops.append(f"djoin {D} {n}")
     yield Batch("exh-strings", ops, exhaustive=True, note="split_string over {a,b,c}* (c = delimiter) incl. join_strings round trip; join_strings of up to 4 pieces of length <= 2")
+    # bisection beyond the exhaustive lengths: every sorted sequence over {0,1,2} up to length 16 (24)
+    ops = []
+    nmax = 24 if thorough else 16
+    for n in range(7, nmax + 1):
+        for c0 in range(n + 1):
+            for c1 in range(n - c0 + 1):
+                tok = "0" * c0 + "1" * c1 + "2" * (n - c0 - c1)
+                for V in range(3):
+                    k = "vlds"[(c0 + c1 + V) % 4] if not thorough else None
+                    for kk in ([k] if k else list("vlds")):
+                        ops.append(f"s eqrange {kk} {V} {tok}")
+                        ops.append(f"s bsearch {kk} {V} {tok}")
+    yield Batch("sorted-long", ops, exhaustive=True,
+                note=f"equal_range / binary_search on every sorted sequence over {{0,1,2}} of length 7..{nmax} (all run-length triples), every value")
     # maps and sets
     ops = []
     for K in range(3):
